@@ -33,6 +33,8 @@ def to_py(x):
         return _uuid.UUID(txt(x["v"]))
     if t == "list":
         return [txt(i) for i in x["items"]]
+    if t == "none":
+        return None
     raise ValueError(t)
 
 
@@ -65,6 +67,10 @@ def conv_spec(c) -> str:
         args = []
         if k == "int" and c["a"]:
             args.append(f"fixed_digits={c['a']}")
+        if c.get("hasmin"):
+            args.append(f"min={c['min'] if k == 'int' else c['min'] / 1000!r}")
+        if c.get("hasmax"):
+            args.append(f"max={c['max'] if k == 'int' else c['max'] / 1000!r}")
         if c["signed"]:
             args.append("signed=True")
         return k + (f"({', '.join(args)})" if args else "")
@@ -73,11 +79,38 @@ def conv_spec(c) -> str:
     return k
 
 
+def seg_string(s) -> str:
+    out = txt(s["pre"]) + f"<{conv_spec(s['conv'])}:{txt(s['name'])}>" + txt(s["post"])
+    for v in s.get("more", []):
+        out += f"<{conv_spec(v['conv'])}:{txt(v['name'])}>" + txt(v["post"])
+    return out
+
+
+CONV_DEFAULTS = {"hasmin": False, "min": 0, "hasmax": False, "max": 0}
+
+
+def norm_case(case) -> dict:
+    """fill in the fields added by later rounds so that every recorded line carries every field"""
+    m = case["map"]
+    m.setdefault("sort", 0)
+    case.setdefault("au", True)
+    for r in m["rules"]:
+        r.setdefault("dsegs", [])
+        for s in r["segs"] + r["dsegs"]:
+            s.setdefault("more", [])
+            for c in [s["conv"]] + [v["conv"] for v in s["more"]]:
+                for k, v in CONV_DEFAULTS.items():
+                    c.setdefault(k, v)
+    return case
+
+
 def rule_string(r, skip=0) -> str:
     out = []
     for s in r["segs"][skip:]:
         if s["k"] == "lit":
             out.append("/" + txt(s["t"]))
+        elif s.get("more"):
+            out.append("/" + seg_string(s))
         else:
             out.append("/" + txt(s["pre"]) + f"<{conv_spec(s['conv'])}:{txt(s['name'])}>" + txt(s["post"]))
     return "".join(out) + ("/" if r["branch"] else "")
@@ -91,7 +124,7 @@ def mk_map(m):
         kw = {"endpoint": f"e{r['ep']}"}
         if r["defaults"]:
             kw["defaults"] = {txt(d["name"]): to_py(d) for d in r["defaults"]}
-        dom = txt(r["dom"])
+        dom = seg_string(r["dsegs"][0]) if r.get("dsegs") else txt(r["dom"])
         via = r.get("via", "plain")
         if m["host_matching"]:
             kw["host"] = dom
@@ -104,7 +137,12 @@ def mk_map(m):
         if via == "subdomain" and not m["host_matching"]:
             f = Subdomain(dom, [f])
         facs.append(f)
-    return Map(facs, host_matching=m["host_matching"], redirect_defaults=m["redirect_defaults"])
+    kw = {}
+    if m.get("sort"):
+        kw["sort_parameters"] = True
+        if m["sort"] == 2:
+            kw["sort_key"] = lambda kv: kv[1]
+    return Map(facs, host_matching=m["host_matching"], redirect_defaults=m["redirect_defaults"], **kw)
 
 
 def bind(mp, m, b):
@@ -131,7 +169,7 @@ def observe_match(fn):
     return {"kind": "match", "ep": epn, "vals": [enc_val(k, v) for k, v in sorted(vals.items())], "_py": (ep, vals)}
 
 
-def deliver(url: str, own_host: str, script: str):
+def deliver(url: str, own_host: str, script: str, own_scheme: str = "http"):
     """What a server hands to the application: (host, PATH_INFO text or None, QUERY_STRING, scheme)."""
     from urllib.parse import unquote_to_bytes
 
@@ -143,6 +181,11 @@ def deliver(url: str, own_host: str, script: str):
             scheme = sch[:-3]
             host, _, tail = url[len(sch):].partition("/")
             rest = url[len(sch) + len(host):]
+    # a client lower-cases the host and drops the default port of the scheme
+    host = host.lower()
+    dport = ":443" if (scheme or own_scheme) == "https" else ":80"
+    if host.endswith(dport) and len(host) > len(dport):
+        host = host[: -len(dport)]
     rest = rest.split("#", 1)[0]
     rawpath, _, query = rest.partition("?")
     root = script[:-1] if script.endswith("/") else script
@@ -207,8 +250,9 @@ def run_case(case) -> list[dict]:
     """Execute one case on the real code; returns trace lines (without t / i)."""
     from werkzeug.wrappers import Request
 
+    norm_case(case)
     m, b = case["map"], case["bind"]
-    base = {"map": m, "bind": b}
+    base = {"map": m, "bind": b, "au": case["au"]}
     mp = mk_map(m)
     ad = bind(mp, m, b)
     ep = f"e{case['ep']}"
@@ -218,13 +262,13 @@ def run_case(case) -> list[dict]:
                 m=_pub(NOMATCH), e=_pub(NOMATCH), qargs=[], rebuilt=[], rb_exc="")
     lines = [line]
     try:
-        url = ad.build(ep, values, force_external=ext)
+        url = ad.build(ep, values, force_external=ext, append_unknown=case["au"])
     except Exception as e:  # noqa: BLE001
         line["exc"] = type(e).__name__
         return lines
     line["url"] = cps(url)
     own = ad.get_host(None)
-    host, raw, query, scheme, root = deliver(url, own, ad.script_name)
+    host, raw, query, scheme, root = deliver(url, own, ad.script_name, txt(b["scheme"]))
     line["dhost"], line["dquery"] = cps(host), cps(query)
     if raw is None:
         return lines
@@ -276,7 +320,7 @@ def run_case(case) -> list[dict]:
                 ln["rb_exc"] = type(e).__name__
                 continue
             ln["rebuilt"] = cps(u2)
-            h2, raw2, _q2, sch2, _root = deliver(u2, ad2.get_host(None), ad2.script_name)
+            h2, raw2, _q2, sch2, _root = deliver(u2, ad2.get_host(None), ad2.script_name, txt(b["scheme"]))
             if raw2 is None or sch2:
                 continue
             ln["under"] = True
@@ -429,10 +473,201 @@ def gen_group_case(rng, seed: int) -> dict:
     return {"map": m, "bind": b, "ep": 1, "vals": vals, "ext": rng.random() < 0.2, "npaths": 4, "pseed": seed}
 
 
+# ------------------------------------------------------------------ growth round: domain variables, several
+# variables per segment, min / max / maxlength options, dotted paths, query sorting / append_unknown / None
+def _conv(k, **kw):
+    return dict({"k": k, "a": 1 if k == "string" else 0, "b": 0, "c": 0, "signed": False, "items": [], **CONV_DEFAULTS}, **kw)
+
+
+def _lit(t):
+    return {"k": "lit", "t": cps(t), "pre": [], "name": [], "conv": _conv("string"), "post": [], "more": []}
+
+
+def _var(n, c, pre="", post="", more=()):
+    return {"k": "var", "t": [], "pre": cps(pre), "name": cps(n), "conv": c, "post": cps(post), "more": list(more)}
+
+
+def _rule(ep, segs, branch=False, dom="", dsegs=(), via="plain", defaults=()):
+    return {"ep": ep, "segs": segs, "branch": branch, "defaults": list(defaults), "dom": cps(dom), "dsegs": list(dsegs), "via": via}
+
+
+def _first(rng, taken):
+    while True:
+        f = gen_text(rng, 1, 4, pools=LITPOOLS, banned="/<>|")
+        if f not in taken and f not in (".", ".."):
+            taken.append(f)
+            return f
+
+
+def _ldh(rng):
+    labels = ["".join(rng.choice("abcxyz0189-") for _ in range(rng.randint(1, 5))).strip("-") or "a" for _ in range(rng.choice([1, 1, 1, 2, 3]))]
+    return ".".join(labels)
+
+
+def gen_dom_case(rng, seed):
+    hm = rng.random() < 0.5
+    server = rng.choice(["example.com", "example.com:8080", "localhost"])
+    taken = []
+    pathsegs = [_lit(_first(rng, taken))] + ([_var("x", gen_conv_g(rng))] if rng.random() < 0.6 else [])
+    shape = rng.randrange(4)
+    if shape == 0:      # <u>  (subdomain, or the whole host under host matching)
+        dconv = rng.choice([_conv("string"), _conv("string", a=2), _conv("any", items=[cps(_ldh(rng)) for _ in range(2)])])
+        dseg = _var("u", dconv)
+    elif shape == 1:    # <u>.example.com  /  lit-<u>
+        dseg = _var("u", _conv("string"), post=".example.com" if hm else rng.choice(["-x", ".int"]))
+    elif shape == 2:    # example.com:<int:port>  /  n<int:k>
+        dseg = _var("port", _conv("int"), pre="example.com:" if hm else "n")
+    else:               # <lang>.<region> in one domain part
+        dseg = _var("u", _conv("string", c=2), post=".", more=[{"name": cps("reg"), "conv": _conv("any", items=[cps("eu"), cps("us1")]), "post": cps(".example.com" if hm else "")}])
+    rules = [_rule(1, pathsegs, rng.random() < 0.4, dsegs=[dseg], via=rng.choice(["plain", "subdomain", "submount"]))]
+    if rng.random() < 0.4:
+        rules.insert(rng.randrange(2), _rule(2, [_lit(_first(rng, taken))], dom=(server if hm else rng.choice(["", "api"]))))
+    vals = []
+    for v in [dseg] + dseg["more"]:
+        c = v["conv"]
+        if c["k"] == "int":
+            val = V("int", str(rng.choice([81, 8080, 8443, 5000, 7, 80, 443, 65535])))
+        elif c["k"] == "any":
+            val = V("str", txt(rng.choice(c["items"])))
+        elif c["c"]:
+            val = V("str", "".join(rng.choice("abxy01") for _ in range(c["c"])))
+        else:
+            val = V("str", _ldh(rng) if rng.random() < 0.8 else rng.choice(["ABC", "Alice.b", "münchen", "a_b", "a%41", "a b", "x..y", "-a"]))
+        vals.append(dict(val, name=v["name"]))
+    for sg in pathsegs[1:]:
+        vals.append(dict(gen_value_g(rng, sg["conv"]), name=sg["name"]))
+    rng.shuffle(vals)
+    m = {"rules": rules, "host_matching": hm, "redirect_defaults": True, "sort": 0}
+    case = norm_case({"map": m, "bind": None, "ep": 1, "vals": vals, "ext": rng.random() < 0.25, "npaths": 4, "pseed": seed, "au": True})
+    # bind where the URL will live (relative URL) half of the time, elsewhere otherwise
+    built = "".join((txt(v["pre"]) if i == 0 else "") + txt(next(x for x in vals if x["name"] == w["name"])["v"]) + txt(w["post"])
+                    for i, (v, w) in enumerate([(dseg, dseg)] + [(dseg, w) for w in dseg["more"]]))
+    same = rng.random() < 0.5
+    if hm:
+        b = {"server": cps(built if same else server), "sub": []}
+    else:
+        b = {"server": cps(server), "sub": cps(built if same else rng.choice(["", "www"]))}
+    case["bind"] = dict(b, script=cps(rng.choice(["/", "/app", "/app/"])), scheme=cps(rng.choice(["http", "https"])))
+    return case
+
+
+def gen_conv_g(rng, kinds=("string", "int", "float", "uuid", "any", "path")):
+    k = rng.choice(kinds)
+    if k == "string":
+        return rng.choice([_conv("string"), _conv("string", b=rng.randint(1, 4)), _conv("string", a=2, b=4), _conv("string", c=3)])
+    if k == "int":
+        signed = rng.random() < 0.4
+        c = _conv("int", signed=signed, a=rng.choice([0, 0, 3]))
+        if rng.random() < 0.6:
+            lo = rng.choice([None, 0, 5, 1])   # the rule syntax cannot spell a negative converter argument
+            hi = rng.choice([None, 100, 99999])
+            if lo is not None:
+                c.update(hasmin=True, min=lo)
+            if hi is not None:
+                c.update(hasmax=True, max=hi)
+        return c
+    if k == "float":
+        signed = rng.random() < 0.4
+        c = _conv("float", signed=signed)
+        if rng.random() < 0.6:
+            c.update(hasmin=True, min=rng.choice([0, 500]))
+            c.update(hasmax=True, max=rng.choice([10500, 1000000]))
+        return c
+    if k == "any":
+        return _conv("any", items=[cps(t) for t in {gen_text(rng, 1, 4, banned='/")\\<>\n') for _ in range(2)}])
+    return _conv(k)
+
+
+def gen_value_g(rng, c, avoid=""):
+    """a value of the converter's domain (85 %: inside min/max) whose URL spelling avoids the characters in `avoid`"""
+    for _ in range(30):
+        k = c["k"]
+        if k == "int" and (c["hasmin"] or c["hasmax"]):
+            lo = c["min"] if c["hasmin"] else (-500 if c["signed"] else 0)
+            hi = c["max"] if c["hasmax"] else 10 ** 11
+            n = rng.randint(lo, hi) if rng.random() < 0.85 else rng.choice([lo - 1, hi + 1])
+            if c["a"] and len(str(n)) > c["a"]:
+                n = lo
+            v = V("int", str(n))
+        elif k == "float" and (c["hasmin"] or c["hasmax"]):
+            n = rng.randint(c["min"], c["max"]) if rng.random() < 0.85 else rng.choice([c["min"] - 1, c["max"] + 1])
+            v = V("float", repr(float(f"{'-' if n < 0 else ''}{abs(n) // 1000}.{abs(n) % 1000:03d}")))
+        elif k == "path" and rng.random() < 0.6:
+            segs = [rng.choice([".", "..", "...", ".a", "a.", "a", gen_text(rng, 1, 3)]) for _ in range(rng.randint(1, 4))]
+            v = V("str", rng.choice(["/", "/", "//"]).join(segs))
+        else:
+            v = gen_value(rng, c)
+            if k == "string" and avoid:
+                t = "".join(ch for ch in txt(v["v"]) if ch not in avoid)
+                lo = c["c"] or c["a"]
+                v = V("str", (t + "k" * lo)[: max(lo, len(t))] if len(t) < lo else t)
+        spelled = txt(v["v"]).zfill(c["a"]) if k == "int" and c["a"] else txt(v["v"])
+        if not any(ch in avoid for ch in spelled) or rng.random() < 0.03:
+            return v
+    return v
+
+
+def gen_multi_case(rng, seed):
+    taken = []
+    seps = "-._~,;:@"
+    nv = rng.choice([2, 2, 3])
+    names = rng.sample(NAMES, nv)
+    convs = [gen_conv_g(rng, ("string", "string", "int", "int", "float", "uuid")) for _ in range(nv)]
+    posts = [rng.choice(seps) + (rng.choice(seps + "ab") if rng.random() < 0.2 else "") for _ in range(nv - 1)] + [rng.choice(["", "", ".html", "~"])]
+    pre = rng.choice(["", "", "v", "id-"])
+    seg = _var(names[0], convs[0], pre, posts[0], [{"name": cps(n), "conv": c, "post": cps(p)} for n, c, p in zip(names[1:], convs[1:], posts[1:])])
+    segs = [_lit(_first(rng, taken)), seg] + ([_lit(_first(rng, taken))] if rng.random() < 0.3 else [])
+    avoid = pre + "".join(posts)
+    vals = [dict(gen_value_g(rng, c, avoid), name=cps(n)) for n, c in zip(names, convs)]
+    rng.shuffle(vals)
+    rules = [_rule(1, segs, rng.random() < 0.4, dom=rng.choice(["", "", "api"]), via=rng.choice(["plain", "submount"]))]
+    m = {"rules": rules, "host_matching": False, "redirect_defaults": True, "sort": 0}
+    b = {"server": cps("example.com"), "script": cps(rng.choice(["/", "/app"])), "sub": cps(rng.choice(["", "api"])), "scheme": cps("http")}
+    return {"map": m, "bind": b, "ep": 1, "vals": vals, "ext": rng.random() < 0.2, "npaths": 5, "pseed": seed, "au": True}
+
+
+def gen_opt_case(rng, seed, qry=False):
+    taken = []
+    segs = [_lit(_first(rng, taken))]
+    names = rng.sample(NAMES, 2)
+    nvar = rng.choice([1, 1, 2])
+    for j in range(nvar):
+        last = j == nvar - 1
+        segs.append(_var(names[j], gen_conv_g(rng, ("string", "int", "int", "float", "float", "uuid") + (("path", "path") if last else ()))))
+    vals = [dict(gen_value_g(rng, sg["conv"]), name=sg["name"]) for sg in segs[1:]]
+    m = {"rules": [_rule(1, segs, rng.random() < 0.4)], "host_matching": False, "redirect_defaults": True, "sort": 0}
+    au = True
+    if qry:
+        m["sort"] = rng.choice([0, 1, 1, 2])
+        au = rng.random() < 0.75
+        for n in rng.sample(EXTRA_NAMES + ["b", "A"], rng.randint(1, 4)):
+            o = rng.randrange(4)
+            if o == 0:
+                vals.append({"name": cps(n), "ty": "none", "v": [], "items": []})
+            elif o == 1:
+                vals.append({"name": cps(n), "ty": "list", "v": [], "items": [cps(gen_text(rng, 0, 3, banned="")) for _ in range(rng.randint(0, 3))]})
+            else:
+                vals.append(dict(V("str", gen_text(rng, 0, 4, banned="")), name=cps(n)))
+    rng.shuffle(vals)
+    b = {"server": cps("example.com"), "script": cps(rng.choice(["/", "/app/"])), "sub": [], "scheme": cps(rng.choice(["http", "https"]))}
+    return {"map": m, "bind": b, "ep": 1, "vals": vals, "ext": rng.random() < 0.2, "npaths": 3, "pseed": seed, "au": au}
+
+
+def gen_growth_case(rng, seed):
+    k = seed % 4
+    if k == 0:
+        return gen_dom_case(rng, seed)
+    if k == 1:
+        return gen_multi_case(rng, seed)
+    return gen_opt_case(rng, seed, qry=(k == 3))
+
+
 def gen_case(seed: int) -> dict:
     rng = random.Random(seed)
     if rng.random() < 0.25:
         return gen_group_case(rng, seed)
+    if rng.random() < 0.3:
+        return norm_case(gen_growth_case(rng, seed))
     hm = rng.random() < 0.2
     server = rng.choice(["example.com", "example.com", "example.com:8080", "localhost"])
     subs = ["", "api", "www", "a.b"]
